@@ -346,6 +346,25 @@ Theorem C12_multi_python_drain_regression :
 Proof. exact Proofs.C12MultiWitness.c12_multi_python_drain_regression. Qed.
 Print Assumptions C12_multi_python_drain_regression.
 
+(* SHARPNESS (vm_compute) of the hypothesis of C12_multi_python on the crates BEFORE file i.  Workspace ws_py_taint:
+     alpha/src/lib.rs:  #[typeshare] struct A { d: datetime }     (a user type called `datetime`: outside c12_py_dom)
+     beta/src/lib.rs:   #[typeshare] struct Plain { n: u32 }      (inside the domain, outside the classes)
+   alpha's field prints as the text `datetime`, which registers the datetime helper functions without the datetime
+   import; the state alpha leaves violates the invariant and beta.py carries the helper functions, using datetime
+   without importing it: in multi-file mode a crate outside the domain spoils the files of LATER crates. *)
+Theorem C12_multi_python_earlier_dom_needed :
+  exists plan p_alpha p_beta t_alpha st1 uses defs,
+    Proofs.C12MultiWitness.y_plan Python Proofs.C12MultiWitness.ws_py_taint = Some plan /\ plan = [p_alpha; p_beta] /\
+    c12_py_dom Proofs.C12MultiWitness.y_py_cfg (items_of (op_data p_alpha)) = false /\
+    c12_py_dom Proofs.C12MultiWitness.y_py_cfg (items_of (op_data p_beta)) = true /\
+    c12_py_known Proofs.C12MultiWitness.y_py_cfg (op_data p_beta) = None /\
+    py_generate_multi uc_exec Proofs.C12MultiWitness.y_py_cfg py_empty_state (op_data p_alpha) = Ok (t_alpha, st1) /\
+    Proofs.C12Multi.c12_py_state_ok st1 = false /\
+    Proofs.C12Multi.c12_py_observe_multi uc_exec Proofs.C12MultiWitness.y_py_cfg st1 (op_data p_beta) = Ok (uses, defs) /\
+    In (lit "datetime") uses /\ ~ In (lit "datetime") defs /\ c12_good uses defs = false.
+Proof. exact Proofs.C12MultiWitness.c12_multi_python_earlier_dom_needed. Qed.
+Print Assumptions C12_multi_python_earlier_dom_needed.
+
 (* ---- Go, multi-file.  The import set (a BTreeSet in the language value) is never cleared between files; begin_file
    inserts encoding/json into it again for every file; the import block of a file is written from the set reached
    after the file's last item.  A set that only grows makes a later file import MORE than it uses, never less: no
@@ -597,14 +616,7 @@ Theorem C12_multi_kotlin :
         Proofs.C12MultiStateless.c12_kt_observe_multi uc cfg (op_crate p) (op_data p) = Ok (uses, defs) /\
         uses = c12_kt_uses ds /\ defs = c12_kt_defs (Proofs.C12MultiStateless.kt_header_multi cfg (op_crate p)) /\
         (c12_kt_known cfg (op_data p) = None -> c12_good uses defs = true).
-Proof.
-  intros uc cfg st0 plan files fin H i fname text Hn.
-  destruct (Proofs.C12MultiStateless.c12_multi_kotlin uc cfg st0 plan files fin H i fname text Hn)
-    as (p & ds & uses & defs & A1 & A2 & A3 & A4 & A5 & A6 & A7).
-  exists p, ds, uses, defs. repeat (split; [assumption|]).
-  unfold Proofs.C12MultiStateless.c12_kt_observe_multi in A6. rewrite A4 in A6. injection A6 as <- <-.
-  split; [reflexivity|]. split; [reflexivity|exact A7].
-Qed.
+Proof. exact Proofs.C12MultiStateless.c12_multi_kotlin. Qed.
 Print Assumptions C12_multi_kotlin.
 
 Theorem C12_multi_kotlin_nonvacuous :
